@@ -18,6 +18,8 @@ REGISTRY = {
             'contracts.c10'],
     'C11': [('contracts.gates', only('optimize_asm_from_log', 'optimize_asm_block_asm_format(gate)', 'compare_asm_block_asm_format')),
             'contracts.c11'],
+    'C12': ['contracts.c12'],
+    'C13': ['contracts.c13'],
     'C14': ['contracts.c14'],
     'C15': ['contracts.c15'],
     'C17': ['contracts.c17'],
